@@ -74,6 +74,8 @@ NAMES_SECRET = ['secret', 'secret_key', 'api_secret', 'my_secret_token', 'xsecre
                 'payment_gateway_webhook_signing_shared_secret', 'n' * 60 + '_secret', 'a_very_long_resource_name_whose_secr' + 'et_part_straddles',
                 'x' * 34 + 'secret' + 'y' * 30, 'secret' + 'z' * 80]
 NAMES_PLAIN = ['db', 'config', 'name', 'iterable', 'start', 'api_key_id', 'motd', 'k', 'res<zq9m>', 'sec_ret', 'secre', 'ecret',
+               # names the meta application uses for resources of its own: a host may use them too
+               'page_title', '_meta_start_time',
                'a_long_plain_resource_name_that_is_wider_than_any_column_' + 'w' * 30]
 VALUE_KINDS = ['str', 'bytes', 'int', 'list', 'dict', 'tuple', 'reprobj', 'long', 'markup', 'nested', 'set', 'badstr', 'none', 'float',
                'rawbytes', 'bytearray']
